@@ -16,6 +16,7 @@ package execution
 
 // Ghost-trace helpers for stream contracts (IN/INM: events delivered by the source so far; OUT/OUTM: events passed
 // to this node's produce/metaSend so far).
+//@ spec ZEROT() int = 0 - 62135596800000000000
 //@ spec lastIn() Record = IN[len(IN)-1]
 //@ spec lastOut() Record = OUT[len(OUT)-1]
 //@ spec lastInM() MetadataMessage = INM[len(INM)-1]
@@ -68,3 +69,63 @@ package execution
 //@   ensures count: old(thas(c.counts, cls(key))) && old(item(c, cls(key)).Count) + 1 < c.triggerAfter ==> thas(c.counts, cls(key)) && item(c, cls(key)).Count == old(item(c, cls(key)).Count) + 1 && len(c.toTrigger) == old(len(c.toTrigger))
 //@   ensures fires: (old(thas(c.counts, cls(key))) && old(item(c, cls(key)).Count) + 1 == c.triggerAfter) || (!old(thas(c.counts, cls(key))) && c.triggerAfter == 1) ==> !thas(c.counts, cls(key)) && len(c.toTrigger) == old(len(c.toTrigger)) + 1 && cls(c.toTrigger[len(c.toTrigger)-1]) == cls(key)
 //@   ensures pending.kept: forall(j, 0, old(len(c.toTrigger)), cls(c.toTrigger[j]) == old(cls(c.toTrigger[j])))
+
+// C17: the end-of-stream trigger. Representation: keys holds boxed GroupKey values, one per key class.
+//@ spec eosRI(c *EndOfStreamTrigger) bool = addr(c.keys) > 0 && forallK(k, thas(c.keys, k) ==> ttag(c.keys, k) == typeid(GroupKey) && 0 < addr(tget(c.keys, k, GroupKey)) && addr(tget(c.keys, k, GroupKey)) < frontier() && cls(deref(tget(c.keys, k, GroupKey))) == k)
+//@ func (*EndOfStreamTrigger).KeyReceived
+//@   requires eosRI(c)
+//@   ensures ri: eosRI(c)
+//@   ensures added: thas(c.keys, cls(key))
+//@   ensures frame: forallK(k, k != cls(key) ==> thas(c.keys, k) == old(thas(c.keys, k))) && c.endOfStreamReached == old(c.endOfStreamReached)
+//@ func (*EndOfStreamTrigger).EndOfStreamReached
+//@   ensures set: c.endOfStreamReached
+// Poll: nothing before the end of the stream; afterwards every received key class, once each, in ascending order
+// (btree.Ascend visits every stored item exactly once; each visit appends exactly that item's key).
+//@ func (*EndOfStreamTrigger).Poll
+//@   requires eosRI(c)
+//@   ascend 1 invariant shape: len(output) >= 0 && forall(j, 0, len(output), thas(c.keys, cls(output[j])) && cls(output[j]) < ascbound())
+//@   ascend 1 step each: continues && len(output) == old(len(output)) + 1 && cls(output[len(output)-1]) == lastkey() && forall(j, 0, old(len(output)), cls(output[j]) == old(cls(output[j])))
+//@   ensures before: !c.endOfStreamReached ==> len(result) == 0
+//@   ensures after: c.endOfStreamReached ==> !stopped() && forall(j, 0, len(result), thas(c.keys, cls(result[j])))
+//@   ensures unchanged: forallK(k, thas(c.keys, k) == old(thas(c.keys, k)))
+
+// C17: CountingTrigger.Poll returns the keys that reached the count since the previous poll, in firing order, and
+// empties the pending list; after the end of the stream it additionally returns every key still being counted
+// (0 < count < n), once each (Ascend visits each stored item once; each visit appends that item's key).
+//@ func (*CountingTrigger).Poll
+//@   requires ri(c)
+//@   ascend 1 invariant prefix: len(output) >= old(len(c.toTrigger)) && forall(j, 0, old(len(c.toTrigger)), cls(output[j]) == old(cls(c.toTrigger[j])))
+//@   ascend 1 step each: continues && len(output) == old(len(output)) + 1 && cls(output[len(output)-1]) == lastkey() && forall(j, 0, old(len(output)), cls(output[j]) == old(cls(output[j])))
+//@   ensures pending: len(result) >= old(len(c.toTrigger)) && forall(j, 0, old(len(c.toTrigger)), cls(result[j]) == old(cls(c.toTrigger[j])))
+//@   ensures cleared: len(c.toTrigger) == 0
+//@   ensures before: !c.endOfStreamReached ==> len(result) == old(len(c.toTrigger))
+//@   ensures after: c.endOfStreamReached ==> !stopped()
+//@   ensures counts.kept: forallK(k, thas(c.counts, k) == old(thas(c.counts, k)))
+//@ func (*CountingTrigger).EndOfStreamReached
+//@   ensures set: c.endOfStreamReached
+
+// C18: the event-time buffer. Items are keyed by the event instant; Records of an item are in arrival order.
+//@ spec bitem(b *RecordEventTimeBuffer, k int) *recordEventTimeBufferItem = tget(b.tree, k, recordEventTimeBufferItem)
+//@ spec bufRI(b *RecordEventTimeBuffer) bool = addr(b.tree) > 0 && forallK(k, thas(b.tree, k) ==> ttag(b.tree, k) == typeidptr(recordEventTimeBufferItem) && 0 < addr(bitem(b, k)) && addr(bitem(b, k)) < frontier() && bitem(b, k).EventTime.ns == k && len(bitem(b, k).Records) >= 1) && forallK(k1, forallK(k2, thas(b.tree, k1) && thas(b.tree, k2) && k1 != k2 ==> addr(bitem(b, k1)) != addr(bitem(b, k2))))
+// AddRecord appends the record, unchanged, to the item of its event instant (created if absent); other instants untouched.
+//@ func (*RecordEventTimeBuffer).AddRecord
+//@   requires bufRI(b)
+//@   ensures ri.basic: addr(b.tree) > 0 && thas(b.tree, record.EventTime.ns)
+//@   ensures ri.items: forallK(k, thas(b.tree, k) ==> ttag(b.tree, k) == typeidptr(recordEventTimeBufferItem) && 0 < addr(bitem(b, k)) && addr(bitem(b, k)) < frontier() && bitem(b, k).EventTime.ns == k && len(bitem(b, k).Records) >= 1)
+//@   ensures ri.separation: forallK(k1, forallK(k2, thas(b.tree, k1) && thas(b.tree, k2) && k1 != k2 ==> addr(bitem(b, k1)) != addr(bitem(b, k2))))
+//@   ensures appended: len(bitem(b, record.EventTime.ns).Records) == ite(old(thas(b.tree, record.EventTime.ns)), old(len(bitem(b, record.EventTime.ns).Records)), 0) + 1 && sameRec(bitem(b, record.EventTime.ns).Records[len(bitem(b, record.EventTime.ns).Records)-1], record)
+//@   ensures frame: forallK(k, k != record.EventTime.ns ==> thas(b.tree, k) == old(thas(b.tree, k)) && (thas(b.tree, k) ==> len(bitem(b, k).Records) == old(len(bitem(b, k).Records))))
+
+// Emit(W): removes exactly the items whose instant is at or below W, least instant first (DeleteMin), passing their
+// records to produce; items above W are untouched; the representation invariant is kept.
+//@ spec minIs(b *RecordEventTimeBuffer, m btree.Item) bool = (m == nil && forallK(k, !thas(b.tree, k))) || (m != nil && thas(b.tree, lastkey()) && forallK(k, thas(b.tree, k) ==> lastkey() <= k) && itag(m) == typeidptr(recordEventTimeBufferItem) && iref(m) == addr(bitem(b, lastkey())))
+//@ func (*RecordEventTimeBuffer).Emit
+//@   requires bufRI(b)
+//@   loop 1 invariant ri: bufRI(b)
+//@   loop 1 invariant min: minIs(b, min)
+//@   loop 1 invariant onlyremoved: forallK(k, thas(b.tree, k) ==> old(thas(b.tree, k))) && forallK(k, k > watermark.ns ==> thas(b.tree, k) == old(thas(b.tree, k)))
+//@   loop 2 invariant inner: bufRI(b) && !thas(b.tree, lastkey()) && min != nil && itag(min) == typeidptr(recordEventTimeBufferItem) && lastkey() <= watermark.ns && forallK(k, thas(b.tree, k) ==> lastkey() < k)
+//@   loop 2 invariant innerframe: forallK(k, thas(b.tree, k) ==> old(thas(b.tree, k))) && forallK(k, k > watermark.ns ==> thas(b.tree, k) == old(thas(b.tree, k)))
+//@   ensures removed: result == nil ==> forallK(k, thas(b.tree, k) ==> k > watermark.ns)
+//@   ensures kept: forallK(k, k > watermark.ns ==> thas(b.tree, k) == old(thas(b.tree, k)))
+//@   ensures ri: bufRI(b)
